@@ -12,7 +12,7 @@ import itertools
 
 from .. import ast as A
 from ..runner import Outcome, fail, open_features
-from ..strategies import Cfg, query_case
+from ..strategies import Cfg, Ctx, query_case, leaf, chance
 from ..world import build_entities, enc
 from ..build import build_query, rows_of
 from ..qcheck import reference_rows, compare_sets, case_features, render_query
@@ -38,7 +38,7 @@ def _cfg(tier):
     return Cfg(nvars=(1, 2), pool=(2, 5), dom=(1, 4), max_product=16,
                profile="falsy" if "falsy_values" not in avoid else "clean", max_depth=3, allow_empty_cond=False,
                select="all", desc=("entity", "set_of"), force_relate=True, noise=False, dom_kinds=("list",),
-               avoid=frozenset(avoid))
+               avoid=frozenset(avoid), earlier_sharing=(1, 5))
 
 
 @st.composite
@@ -46,6 +46,23 @@ def _case(draw, tier):
     c = draw(query_case(_cfg(tier)))
     c["neg_spelling"] = draw(st.sampled_from(["not_", "not_", "~", "desc"]))
     c["abandon_first"] = draw(st.sampled_from([0, 0, 1, 1, 2]))
+    if chance(draw, 1, 8):
+        # a three-step story around one comparison object k: first asked for its false results too, but only for part of
+        # its bindings (narrowed by another conjunct, or given up early); then asked for true results only, for all
+        # bindings; then negated inside a conjunction (the disjunction De Morgan makes of it needs the false results of k)
+        cfg = _cfg(tier)
+        ctx = Ctx(cfg, c["ents"], len(c["vars"]))
+        v = draw(st.integers(0, len(c["vars"]) - 1))
+        k = draw(st.sampled_from([["cmp", draw(st.sampled_from(["==", ">=", "<"])), ["attr", ["var", v], draw(st.sampled_from(["a", "b"]))],
+                                   ["const", draw(st.sampled_from(ctx.P["ints"]))]], leaf(draw, ctx, [v])]))
+        if k[0] in ("cmp", "in"):
+            narrow, other, flag = leaf(draw, ctx, [v]), leaf(draw, ctx, [v]), leaf(draw, ctx, [v])
+            first = {"cond": ["and", "nary", [narrow, ["or", "nary", [k, other]]]], "take": None} if draw(st.booleans()) else \
+                {"cond": ["or", "nary", [k, other]], "take": draw(st.sampled_from([1, 1, 2]))}
+            c["earlier_queries_sharing_comparisons"] = [first, {"cond": k, "take": None}]
+            c["cond"] = ["and", draw(st.sampled_from(["nary", "binl"])), [k, flag]]
+            c["share_terms"] = False
+            c["all_queries_built_before_any_is_evaluated"] = draw(st.booleans())
     return c
 
 
